@@ -460,11 +460,17 @@ def check_reduce(model, R, P, kernels):
         cfg = CFG(f.node)
         gp = f.pos_params[0]
         hits = []
+        # names that hold the upstream gradient: the parameter and plain copies of it (a helper inlined by normalisation introduces such temporaries)
+        alias = {gp}
+        for _ in range(4):
+            for n in body_walk(f.node):
+                if isinstance(n, ast.Assign) and len(n.targets) == 1 and isinstance(n.targets[0], ast.Name) and isinstance(n.value, ast.Name) and n.value.id in alias:
+                    alias.add(n.targets[0].id)
         for n in body_walk(f.node):
             if isinstance(n, ast.Assign) and isinstance(n.value, ast.Call):
                 d = model.resolve(f.mod, n.value.func)
                 if d in ('synapgrad.cpu_ops.unsqueeze_forward', 'numpy.expand_dims') and n.value.args and isinstance(n.value.args[0], ast.Name) \
-                        and n.value.args[0].id == gp:
+                        and n.value.args[0].id in alias:
                     hits.append(n)
         if len(hits) != 1:
             R.ob(P + '.REDUCE', f.qualname, 're-insertion of reduced axes', False,
